@@ -39,3 +39,12 @@ DEFAULT_LEVEL = ("Bounded exhaustive model checking of the TLA+ specification (t
 DEFAULT_NOTE = ("Trusted: harness/abs field copies, the RFC reading in spec/*.tla (DESIGN.md Appendix A), TLC. The specification is bound to the code only "
                 "through executions actually performed; inputs outside the enumerated domains and drivers are not covered.")
 NOT_YET = {}
+
+prop("C04", lambda t, s: [("mc", "Mc", "McVariants"), ("mc", "Mc", n(t, "McFaults", "McFaults2")), ("drive", "fuzz", n(t, 1200, 40000))],
+     exhaustive_note="McVariants enumerates every alternative and count-inflated encoding of spec/Variants.tla over VarDom/InflateDom; McFaults every first-order fault on the tiny domain")
+prop("C06", lambda t, s: [("mc", "Mc", n(t, "McDgram", "McDgram3")), ("drive", "frameseq", n(t, 600, 30000))],
+     exhaustive_note="McDgram enumerates every sequence of up to 2 (thorough: 3) pieces over the frame set of spec/Domain.tla (valid frames of every kind, raw frames, malformed frames, incomplete tails)")
+prop("C07", lambda t, s: [("mc", "Mc", n(t, "McDispatch", "McDispatchAll")), ("mc", "Mc", "McForeign"), ("mc", "Mc", "McWire"), ("drive", "fuzz", n(t, 600, 20000))],
+     exhaustive_note="McDispatch enumerates 28 packet types (thorough: all 256) x 32 FMT values x 4 bodies; McForeign gives every star-domain encoding to all 16 decoders")
+prop("C08", lambda t, s: [("mc", "Mc", "McLimits"), ("drive", "limits", n(t, 1000, 60000))],
+     exhaustive_note="McLimits enumerates the values at, just below and just above every wire limit named by the property (LimitDom of spec/Domain.tla)")
